@@ -172,9 +172,10 @@ def main():
         "not_applicable": na,
         "notes": ("See DESIGN.md (section 10 = as built). known_findings.json lists repaired ('fixed:') and recorded defects. "
                   "Beyond the listed properties the specification also covers the CoAP connection life-cycle, the zeroconf controller "
-                  "life-cycle, the BLE session life-cycle, config-number / accessory-database / cache coherence and the BLE global state "
-                  "number (spec/coap, spec/discovery/ZcLifecycle, spec/ble/BleSession, spec/cfgcache, spec/ble/BleGsn); these extensions run "
-                  "through the same CLI (./check EXTCOAP | EXTZC | EXTBLE | EXTCFG | EXTGSN [--tier thorough]) and write evidence/EXT*.json, "
+                  "life-cycle, the BLE session life-cycle, config-number / accessory-database / cache coherence, the BLE global state "
+                  "number and BLE subscriptions / connected events (spec/coap, spec/discovery/ZcLifecycle, spec/ble/BleSession, spec/cfgcache, "
+                  "spec/ble/BleGsn, spec/ble/BleSubs); these extensions run "
+                  "through the same CLI (./check EXTCOAP | EXTZC | EXTBLE | EXTCFG | EXTGSN | EXTBLESUB [--tier thorough]) and write evidence/EXT*.json, "
                   "but are not entries of 'checks' because the property list is fixed. seeded/run.py re-runs the checks against the kept "
                   "seeded defects, seeded/run_refactorings.py against behaviour-preserving patches (no-alarm test)."),
     }
